@@ -22,6 +22,9 @@ func init() {
 		quick = append(quick, &Job{Pkg: "", Func: "ZZ_C13_Relisten", Args: []int64{lf}, Bounds: "a listener closed before its accept loop started, the same address listened on and started again, then the first listener's Async (either order), Shutdown concurrently; ALL interleavings"})
 	}
 	add(&quick, 0, 36, 0) // two connects with the same channel id: the holder refuses the second during activation
+	for _, c := range [][]int64{{0, 0, 0}, {16, 8, 0}, {0, 8, 0}, {16, 8, 2}, {16, 0, 0}, {0, 8, 2}} {
+		quick = append(quick, &Job{Pkg: "", Func: "ZZ_C13_BufferedClose", Args: c, Bounds: "a channel over the repository's buffered transport wrappers (read / write buffer sizes 0 or >0) on a connection whose writes fail: after Close the connection itself is closed exactly once"})
+	}
 	add(&thorough, 0, 23, 0)
 	add(&thorough, 0, 3, 2)
 	add(&thorough, 0, 5, 2)
@@ -30,7 +33,7 @@ func init() {
 	thorough = append(thorough, &Job{Pkg: "", Func: "ZZ_C13_Shutdown", Args: []int64{7, 0}, Bounds: b, Limit: 3000e9})
 	Specs["C13"] = &Spec{
 		Jobs: jobsBy(quick, thorough), Labels: labelFilter("c13-"),
-		MustReach: []string{"c13-done", "c13-relisten-done"},
+		MustReach: []string{"c13-done", "c13-relisten-done", "c13-buffered-close-done"},
 		Bounds: map[string]string{
 			"quick":    "one listener, one offered inbound connection, one client connect, optional Listener.Close: scenarios {none, listen, listen+peer, connect, listen+close, listen+peer+close, listen+connect}",
 			"thorough": "queued channels for the same scenarios; listen+peer+connect (up to 50 min)",
